@@ -36,19 +36,9 @@ def rule_masks(repo, rid_mp, rid_gd, targets, floor, exceptions=None):
                 mp.add(Finding(rid_mp, f, 'mask group `%s` (%d branches) is not a partition: %s' % (label, len(g.members), defect),
                                node=node, construct='%s group %s/%d' % (g.kind, g.target or 'sum', len(g.members))))
             defects = masks.gd_defects(g, guards)
-            gd.inst({'function': f.fq, 'group': label, 'guards': len(guards), 'defects': len(defects)}, (f.fq, label, gi))
+            gd.inst({'function': f.fq, 'group': label, 'guards': len(guards), 'gather_defects': len(defects)}, (f.fq, label, gi))
             seen = set()
             for mi, msg, root in defects:
-                exc = None
-                for (eq, frag), (reason, other_frag) in exceptions.items():
-                    if eq == q and root is not None and frag in root:
-                        # the exception is tied to the branch where the *other* magnitude is small
-                        og = [gf for rt, gf in guards.items() if other_frag in rt]
-                        if og and masks.implies(g.members[mi][0], ('not', og[0])):
-                            exc = reason
-                if exc is not None:
-                    gd.notes.append('%s: exception (%s): %s' % (q, exc, msg))
-                    continue
                 key = (mi, msg)
                 if key in seen:
                     continue
@@ -56,6 +46,26 @@ def rule_masks(repo, rid_mp, rid_gd, targets, floor, exceptions=None):
                 st = g.members[mi][3]
                 gd.add(Finding(rid_gd, f, 'branch %d of mask group `%s`: %s' % (mi, label, msg), node=st,
                                construct='%s[%d] %s' % (label, mi, msg[:80])))
+        # context-propagating pass over the returned value(s): guarded divisions and vanishing branch factors
+        for ret in returns_of(f.node):
+            if ret.value is None:
+                continue
+            v = inline_straight(f.node, upto=ret).value(ret.value)
+            g2 = dict(guards)
+            g2.update(masks.guard_atoms([v]))
+            cds = masks.context_defects(v, g2)
+            gd.inst({'function': f.fq, 'returned_value_walk': True, 'guards': len(g2), 'defects': len(cds)}, (f.fq, 'ctx', ret.lineno))
+            for kind, node, msg, root, ctx in cds:
+                exc = None
+                for (eq, frag), (reason, other_frag) in exceptions.items():
+                    if eq == q and root is not None and frag in root and kind == 'div':
+                        og = [gf for rt, gf in g2.items() if other_frag in rt]
+                        if og and ctx is not None and masks.implies(ctx, ('not', og[0])):
+                            exc = reason
+                if exc is not None:
+                    gd.notes.append('%s: exception (%s): %s' % (q, exc, msg))
+                    continue
+                gd.add(Finding(rid_gd, f, msg, construct='%s %s' % (kind, msg[:100])))
     return [mp, gd]
 
 
